@@ -1,7 +1,7 @@
 ---------------------------- MODULE Resolver_Worlds ----------------------------
 (* A bounded family of worlds, in JSON form (Resolver.tla, last section), shared by
    Resolver_MC (model checking of the reference resolver) and Resolver_Export
-   (spec -> code: the real resolvers are run on every member / a sample).  Three parts:
+   (spec -> code: the real resolvers are run on every member / a sample).  Four parts:
 
    "main"     two names a, b; source versions a-1, a-2, b-1, b-2 (slot 0; medium: b-2 also in its
               own slot); installed: nothing / a-1 / a-2 (which depends on b) and nothing / b-1 /
@@ -15,6 +15,9 @@
               the same blocker that p depends on (the blocker is registered twice).  Also: x installed
               in two slots, a blocker !<x-3 spanning both, x-3 available for one of them, and an
               earlier target that has put one of the slots into the plan.
+              Also blockers on a package of the virtual/ category.
+   "session"  requests for resolver sessions: retry after a failed target (reset), targets given one
+              after the other with a build-time cycle in the first, an any-of group of six.
    "versions" one name a with a lower and a higher version that differ in digit count or in a later
               component (9/10, 1.9/1.10, 2.9/2.10), each placed in the main repository, an
               overlay or the installed database; b depends on a: candidates from several
@@ -105,6 +108,48 @@ SpanFamily ==
              <<AS("x", "any", AnyV, "2", "none"), A("p", "any", AnyV, "none")>>,
              <<A("x", "any", AnyV, "none"), A("p", "any", AnyV, "none")>>}}
 
+\* blockers on a package of the virtual/ category (name "v": the driver renders it as virtual/v; the
+\* resolver rewrites such blockers before registering them)
+VirtualFamily ==
+  {Case("blocker",
+        <<P("src", "p", <<1>>, "0", D("rdepend", <<One(A("v", "any", AnyV, b))>>)), P("src", "v", <<1>>, "0", NoDeps)>> \o vv, t) :
+      b \in {"weak", "strong"},
+      vv \in {<<>>, <<P("vdb", "v", <<1>>, "0", NoDeps)>>},
+      t \in {<<A("p", "any", AnyV, "none")>>, <<A("v", "any", AnyV, "none"), A("p", "any", AnyV, "none")>>}}
+
+(* ---------------- sessions ---------------- *)
+\* requests whose interest lies in what ONE resolver instance goes through:
+\*   retry   the first target upgrades an installed package, the second cannot be resolved: the failed
+\*           target is dropped, the resolver reset and asked again;
+\*   cycle   t pulls in a build-time cycle a -> b -> a (b falls back on c); afterwards x (whose higher
+\*           version needs a) and y (needs a) are asked for: a is in the plan by then;
+\*   anyof   an any-of group of six whose installed member cannot be resolved (its own dependency is gone):
+\*           the alternatives must be tried in the order they are written.
+Plain(k) == A(k, "any", AnyV, "none")
+Alts(ks) == [i \in DOMAIN ks |-> <<Plain(ks[i])>>]
+SessionFamily ==
+  {Case("session",
+        <<P("src", "x", <<1>>, "0", NoDeps), P("src", "x", <<2>>, "0", NoDeps), P("vdb", "x", <<1>>, "0", NoDeps),
+          P("src", "g", <<1>>, "0", D("rdepend", <<One(Plain("z"))>>))>> \o extra, t) :
+      extra \in {<<>>, <<P("src", "k", <<1>>, "0", D("rdepend", <<One(A("x", "<", <<2>>, "strong"))>>))>>},
+      t \in {<<Plain("x"), Plain("g")>>, <<Plain("x"), Plain("g"), Plain("k")>>}}
+  \cup
+  {Case("session",
+        <<P("src", "t", <<1>>, "0", D("depend", <<One(Plain("a"))>>)),
+          P("src", "a", <<1>>, "0", D("depend", <<One(Plain("b"))>>)),
+          P("src", "b", <<1>>, "0", D("depend", <<AnyOf(Plain("a"), Plain("c"))>>)),
+          P("src", "c", <<1>>, "0", NoDeps),
+          P("src", "x", <<1>>, "0", NoDeps), P("src", "x", <<2>>, "0", D("rdepend", <<One(Plain("a"))>>)),
+          P("src", "y", <<1>>, "0", D("rdepend", <<One(Plain("a"))>>))>>, t) :
+      t \in {<<Plain("t"), Plain("x")>>, <<Plain("t"), Plain("y")>>, <<Plain("t"), Plain("x"), Plain("y")>>}}
+  \cup
+  {Case("session",
+        <<P("vdb", "a", <<1>>, "0", D("rdepend", <<One(Plain("z"))>>)),
+          P("src", "t", <<1>>, "0", D(c, <<Alts(<<"a", "b", "c", "e", "f", "g">>)>>)),
+          P("src", "b", <<1>>, "0", NoDeps), P("src", "c", <<1>>, "0", NoDeps), P("src", "e", <<1>>, "0", NoDeps),
+          P("src", "f", <<1>>, "0", NoDeps), P("src", "g", <<1>>, "0", NoDeps)>>, <<Plain("t")>>) :
+      c \in {"rdepend", "depend"}}
+
 (* ---------------- versions ---------------- *)
 VersionPairs == {<<<<9>>, <<10>>>>, <<<<1, 9>>, <<1, 10>>>>}
                 \cup (IF Level = "tiny" THEN {} ELSE {<<<<2, 9>>, <<2, 10>>>>})
@@ -118,7 +163,7 @@ VersionFamily ==
       t \in {<<A("a", "any", AnyV, "none")>>, <<A("b", "any", AnyV, "none")>>}}
 
 \* [fam, pkgs |-> sequence of JSON packages, targets |-> sequence of JSON atoms]
-Family == MainFamily \cup BlockerFamily \cup SpanFamily \cup VersionFamily
+Family == MainFamily \cup BlockerFamily \cup SpanFamily \cup VirtualFamily \cup SessionFamily \cup VersionFamily
 
 \* a thinner family for the constant-level laws: both versions of a name share their dependencies
 LawFamilyOf(fam) == {c \in fam : c.fam # "main" \/
